@@ -179,12 +179,21 @@ func c16Property(rt *rapid.T, ev *evid.Rec) {
 	if rapid.IntRange(0, 2).Draw(rt, "preexisting") == 0 {
 		d := decls[rapid.IntRange(0, len(decls)-1).Draw(rt, "pretable")]
 		var defs []string
-		for _, c := range d.Columns {
-			if rapid.Bool().Draw(rt, "precol:"+c.Name) {
+		// some of its columns, or every column it will ever write (a hand-made table, or only the
+		// create-table line of a printed schema applied): the unique key still has to be created
+		all := rapid.IntRange(0, 2).Draw(rt, "preall") == 0
+		cols := d.Columns
+		if all {
+			cols = d.WithRequired().Columns
+		}
+		for _, c := range cols {
+			if all || rapid.Bool().Draw(rt, "precol:"+c.Name) {
 				defs = append(defs, fmt.Sprintf("%s %s", c.Name, c.Type))
 			}
 		}
-		defs = append(defs, "legacy_note text")
+		if !all || rapid.Bool().Draw(rt, "legacycol") {
+			defs = append(defs, "legacy_note text")
+		}
 		sql := fmt.Sprintf("create table if not exists %s(%s)", d.Table, strings.Join(defs, ", "))
 		pre = func(db *fakepg.DB) {
 			if err := db.Exec(sql); err != nil {
